@@ -115,6 +115,8 @@ def extract(cfg):
         cmd.append("--outline=" + o)
     for a in cfg.get("abstract", []):
         cmd.append("--abstract=" + a)
+    for a in cfg.get("rec_stub", []):
+        cmd.append("--rec-stub=" + a)
     if cfg.get("allow_dtor_skip"):
         cmd.append("--allow-dtor-skip")
     cmd += ["--", "-std=c++17", "-I" + REPO + "/include", "-I" + REPO + "/src", "-I" + CLANG_RES, "-I" + VERIF, "-w"] + cfg.get("cxxflags", [])
@@ -204,7 +206,19 @@ def run_job(cfg, job, tier, want_trace=False, only_property=None):
     mode = job.get("mode", "direct")
     r = {"job": job["id"], "mode": mode, "obligations": [], "solver_s": 0.0, "status": "undecided", "note": "", "backend": "cbmc 6.11 / MiniSat (SAT)"}
     timeout = int(job.get("timeout", JOB_TIMEOUT[tier]))
-    if mode == "direct":
+    if mode == "direct" and job.get("loops"):
+        # direct harness + loop contracts: needs the entry point at compile time, then goto-instrument --apply-loop-contracts
+        tag = hashlib.md5((job["id"] + " ".join(defs)).encode()).hexdigest()[:8]
+        a = os.path.join(bdir, "lc-" + tag + "-a.gb"); b = os.path.join(bdir, "lc-" + tag + "-b.gb")
+        cmd = ["goto-cc", "--function", job["entry"], "-I" + VERIF, "-I" + bdir, "-I" + cfg["dir"], os.path.join(cfg["dir"], job["harness"]), "-o", a] + ["-D" + d for d in defs]
+        rc, out, err, dt = run(cmd, timeout=600)
+        if rc != 0:
+            r["note"] = "goto-cc failed: " + (out + err)[-3000:]; return r
+        rc, out, err, dt = run(["goto-instrument", "--apply-loop-contracts", a, b], timeout=900)
+        if rc != 0:
+            r["note"] = "goto-instrument failed: " + (out + err)[-3000:]; return r
+        binary = b; fn_args = []
+    elif mode == "direct":
         ok, gb, msg = compile_harness(cfg, job["harness"], defs)
         if not ok:
             r["note"] = "goto-cc failed: " + msg; return r
@@ -243,6 +257,8 @@ def run_job(cfg, job, tier, want_trace=False, only_property=None):
     for fl in job.get("noflags", "").split(","):
         if fl and fl in flags:
             flags.remove(fl)
+    if job.get("backend") == "cvc5int" and not want_trace:
+        return run_job_cvc5int(cfg, job, r, binary, fn_args, flags, timeout)
     cmd = ["cbmc", binary] + fn_args + flags + ["--json-ui"]
     if want_trace:
         cmd += ["--trace"]
@@ -280,6 +296,93 @@ def run_job(cfg, job, tier, want_trace=False, only_property=None):
         r["obligations"].append(o)
     r["status"] = "done"
     return r
+
+def run_job_cvc5int(cfg, job, r, binary, fn_args, flags, timeout):
+    """SMT route for arithmetic chains: CBMC generates the verification conditions (bit-vector SMT-LIB2), cvc5 decides them after
+    translating bit-vectors to integer arithmetic (--solve-bv-as-int=sum).  One query for all obligations; on sat/unknown one query each."""
+    r["backend"] = "cbmc 6.11 VC generation (--smt2) + cvc5 1.0 --solve-bv-as-int=sum"
+    bdir = os.path.join(BUILD, cfg["name"]); tag = hashlib.md5(job["id"].encode()).hexdigest()[:8]
+    base = ["cbmc", binary] + fn_args + flags
+    r["cmd"] = " ".join(base) + " --property <each> --smt2 --outfile vc.smt2 ; cvc5 --solve-bv-as-int=sum vc.smt2"
+    rc, out, err, dt = run(base + ["--show-properties", "--json-ui"], timeout=600)
+    try:
+        data = json.loads(out)
+    except Exception:
+        r["note"] = "cannot list properties: " + (out + err)[-800:]; return r
+    props = None
+    for el in data:
+        if isinstance(el, dict) and "properties" in el:
+            props = el["properties"]
+    if props is None:
+        r["note"] = "no property list from cbmc"; return r
+    t0 = time.time()
+    def query(names, suffix):
+        f = os.path.join(bdir, "vc-%s-%s.smt2" % (tag, suffix))
+        cmd = list(base)
+        for n in names:
+            cmd += ["--property", n]
+        if os.path.exists(f): os.remove(f)
+        rc, out, err, dt = run(cmd + ["--smt2", "--outfile", f], timeout=600)
+        if "VERIFICATION SUCCESSFUL" in out:
+            return "unsat"      # all selected obligations were discharged by CBMC's own simplification, no VC left
+        if not os.path.exists(f):
+            return "error:" + (out + err)[-300:]
+        if "(check-sat" not in open(f).read():
+            return "unsat"      # CBMC generated no verification condition for these obligations (discharged by simplification)
+        rc, out, err, dt = run(["cvc5", "--solve-bv-as-int=sum", f], timeout=timeout)
+        first = (out.strip().split("\n") or [""])[0].strip()
+        if rc == -9:
+            return "timeout"
+        return first if first in ("sat", "unsat") else "unknown:" + (out + err)[:200]
+    canaries = [p for p in props if p.get("description", "").startswith("CANARY")]
+    others = [p for p in props if not p.get("description", "").startswith("CANARY")]
+    verdict = {}; vcfile = {}
+    if others:
+        v = query([p["name"] for p in others], "all")
+        if v == "unsat":
+            for p in others: verdict[p["name"]] = "SUCCESS"
+        else:
+            for i, p in enumerate(others):
+                v1 = query([p["name"]], "p%d" % i)
+                if v1 == "unsat": verdict[p["name"]] = "SUCCESS"
+                elif v1 == "sat": verdict[p["name"]] = "FAILURE"; vcfile[p["name"]] = os.path.join(bdir, "vc-%s-p%d.smt2" % (tag, i))
+                else:
+                    r["note"] = "cvc5 could not decide %s: %s" % (p["name"], v1); r["solver_s"] = round(time.time() - t0, 2); return r
+    for i, p in enumerate(canaries):
+        v1 = query([p["name"]], "c%d" % i)
+        verdict[p["name"]] = "FAILURE" if v1 == "sat" else ("SUCCESS" if v1 == "unsat" else "UNKNOWN")
+    r["solver_s"] = round(time.time() - t0, 2)
+    for p in props:
+        ob = {"property": p["name"], "description": p.get("description", ""), "status": verdict.get(p["name"], "UNKNOWN"), "sourceLocation": p.get("sourceLocation", {})}
+        klass, pr = classify(ob, job)
+        r["obligations"].append({"name": ob["property"], "desc": ob["description"], "status": ob["status"], "class": klass, "props": pr, "vcfile": vcfile.get(p["name"]),
+                                 "loc": "%s:%s" % ((ob.get("sourceLocation") or {}).get("file", ""), (ob.get("sourceLocation") or {}).get("line", ""))})
+    r["status"] = "done"
+    return r
+
+def cvc5_model_inputs(vcfile, entry):
+    """counterexample of a failed VC: ask cvc5 for a model and read the harness' local variables back"""
+    txt = open(vcfile).read()
+    f2 = vcfile + ".model.smt2"
+    open(f2, "w").write(txt.replace("(exit)", "") + "\n(get-model)\n")
+    rc, out, err, dt = run(["cvc5", "--solve-bv-as-int=sum", "--produce-models", f2], timeout=300)
+    vals = {}
+    for m in re.finditer(r"\(define-fun \|([^|]*)\| \(\) \(_ BitVec (\d+)\) #([bx])([0-9a-fA-F]+)\)", out):
+        sym, width, base, digits = m.group(1), int(m.group(2)), m.group(3), m.group(4)
+        mm = re.match(r"(h_\w+)::1::([\w.]+)!0@1#(\d+)$", sym)
+        if not mm:
+            continue
+        name, gen = mm.group(2), int(mm.group(3))
+        bits = digits if base == "b" else bin(int(digits, 16))[2:].zfill(width)
+        if name not in vals or gen < vals[name][0]:
+            if gen >= 2:
+                vals[name] = (gen, bits, width)
+    res = {}
+    for name, (gen, bits, width) in vals.items():
+        v = int(bits, 2)
+        sv = v - (1 << width) if bits[0] == "1" else v
+        res[name] = {"data": "%d (signed %d)" % (v, sv), "binary": bits, "width": width}
+    return res
 
 # ------------------------------------------------------------------------------------------------ property run
 EXTRACTION_DROPPED = [
@@ -355,6 +458,9 @@ def make_replay(cfg, job, ob, prop, tier):
     if job.get("mode", "direct") == "direct":
         j2 = dict(job); j2["defs"] = ",".join([d for d in job.get("defs", "").split(",") if d] + ["VERIF_SMALL_CE"]); attempts.append(j2)
     attempts.append(job)
+    if job.get("backend") == "cvc5int" and ob.get("vcfile") and os.path.exists(ob["vcfile"]):
+        inputs = cvc5_model_inputs(ob["vcfile"], job["entry"]); attempts = [] if inputs else attempts
+        tr = {"cmd": "cvc5 --solve-bv-as-int=sum --produce-models " + ob["vcfile"]}
     for jx in attempts:
         tr = run_job(cfg, jx, tier, want_trace=True, only_property=ob["name"])
         cbmc_out = tr.get("note", "")
@@ -445,7 +551,7 @@ def run_and_report(prop, tier, targets, jobs, t0, extra_cov=None, extra_assumpti
     # compile harnesses once per (target, harness, defs) before fanning out
     seen = set()
     for j in okjobs:
-        if j.get("mode", "direct") != "direct":
+        if j.get("mode", "direct") != "direct" or j.get("loops"):
             continue
         key = (j["target"], j["harness"], j.get("defs", ""))
         if key in seen:
